@@ -10,6 +10,7 @@
 import Lc3V.Model.Word
 import Lc3V.Model.Instr
 import Lc3V.Model.Dev
+import Std.Data.TreeMap
 namespace Lc3V
 
 inductive SimErr where
@@ -110,7 +111,7 @@ structure Sim where
   instrRun : Nat
   prefetch : Bool
   pause : Pause
-  observer : List (W × Nat)
+  observer : Std.TreeMap Nat Nat
   mcr : Bool
   flags : Flags
   breakpoints : List Breakpoint
@@ -182,11 +183,13 @@ def R7 : Reg := 7
 def defaultCtx (s : Sim) : Ctx :=
   { privileged := PSR.privileged s.psr || s.flags.ignorePriv, strict := s.flags.strict, ioEffects := true, track := true }
 
-/-- `AccessObserver::update_mem_accesses`: OR the flag into the entry (BTreeMap ↦ association list) -/
-def obsUpdate (obs : List (W × Nat)) (a : W) (flag : Nat) : List (W × Nat) :=
-  match obs with
-  | [] => [(a, flag)]
-  | (b, f) :: rest => if b = a then (b, f ||| flag) :: rest else (b, f) :: obsUpdate rest a flag
+/-- `AccessObserver::update_mem_accesses`: OR the flag into the entry (`BTreeMap<u16, AccessSet>` ↦ `TreeMap` keyed
+    by the address as a number; a missing key means "not accessed") -/
+def obsUpdate (obs : Std.TreeMap Nat Nat) (a : W) (flag : Nat) : Std.TreeMap Nat Nat :=
+  obs.insert a.toNat (obs.getD a.toNat 0 ||| flag)
+
+/-- `AccessObserver::get_mem_accesses` as flag bits (0 = not accessed) -/
+def obsGet (obs : Std.TreeMap Nat Nat) (a : W) : Nat := obs.getD a.toNat 0
 
 def OBS_READ : Nat := 1
 def OBS_WRITTEN : Nat := 2
@@ -540,7 +543,7 @@ abbrev RunRes := Except SimErr Unit
 
 /-- `step_in` -/
 def stepIn (s : Sim) : RunRes × Sim :=
-  let s := { s with observer := [], log := [] }
+  let s := { s with observer := {}, log := [] }
   match step s with
   | (.ok _, s') => (.ok (), s')
   | (.error .halt, s') => (.ok (), s')
@@ -591,7 +594,7 @@ def runLoop (tw : Tripwire) : Nat → Nat → Sim → Option (Except SimErr Paus
 
 /-- `run_while(tripwire)` -/
 def runWhile (tw : Tripwire) (fuel : Nat) (s : Sim) : Option (RunRes × Sim) :=
-  let s := { s with observer := [], log := [], pause := .unsuccessful, mcr := true }
+  let s := { s with observer := {}, log := [], pause := .unsuccessful, mcr := true }
   match runLoop tw fuel 1 s with
   | none => none
   | some (.ok p, s) => some (.ok (), { s with mcr := false, pause := p })
@@ -653,7 +656,7 @@ def newSim (flags : Flags) (fill : Nat → W) (os : List (W × List (Option W)))
   let s : Sim := {
     mem := mem, regs := regs, pc := 0x3000, psr := PSR.new, savedSp := Word.ofData 0x3000,
     frameNo := 0, frames := if flags.debugFrames then some #[] else none, srDefs := [],
-    alloca := #[], instrRun := 0, prefetch := false, pause := .unsuccessful, observer := [],
+    alloca := #[], instrRun := 0, prefetch := false, pause := .unsuccessful, observer := {},
     mcr := mcr, flags := flags, breakpoints := [], iregs := defaultIregs, dev := DevHandler.new, log := [] }
   (s.loadObj os false).2
 
